@@ -16,7 +16,7 @@ SPEC = {
                   "C35_main / C35_property (over ALL histories of builds with any definitions under any configurations — the key covers the "
                   "checkers: C35_key_covers_checkers —, arbitrary poisoned/stale cache contents and removals, a successful build ends with outputs "
                   "whose digest under the current hash function or a currently configured checker is declared). The two failures found on the "
-                  "pinned tree are FIXED in /repo (filegroup check inside `if changed`: 2c4e62b; hashcheckers outside every hash: 9c3fe2b); their "
+                  "pinned tree are FIXED in /repo (filegroup check inside `if changed`: 2c4e62b; hashcheckers outside every hash: 477defb); their "
                   "witnesses are kept as theorems about the old fact values and as fixed-*.ops corpus files whose oracle must pass. Recorded "
                   "corners that are not property failures: C35_corner_{hashfunction_outside_checkers,single_dir,stale_memo,stale_memo_dir,"
                   "noverify}. Out of model: remote execution, post-build functions / output_dirs, remote_file downloads, http cache, crashes "
@@ -64,7 +64,7 @@ m6  checkRuleHashes first comparison: `h == hashStr` -> strings.EqualFold       
     24 disagreements
 m7  buildTarget: storeInCache moved before calculateAndCheckRuleHash                     exit 1: VIOLATION failed-output-stored-in-cache, 25 disagreements
 h1  harmless: locals renamed in UnprefixedHashes and checkRuleHashes, independent statements reordered   exit 0, facts identical
-m13 ruleHash: the HashCheckers block removed again (= revert of fix 9c3fe2b)              exit 1: VIOLATION hashcheckers-change-not-reverified
+m13 ruleHash: the HashCheckers block removed again (= revert of fix 477defb)              exit 1: VIOLATION hashcheckers-change-not-reverified
     (failing input = corpus fixed-hashcheckers-…ops), 30/32 obligations (C35_facts_ok, C35_key_covers_checkers), correspondence agrees
 m14 filegroup branch back to `if changed {check}` (= revert of fix 2c4e62b)               exit 1: VIOLATION filegroup-unchanged-skips-hash-check
     (8 oracle failures incl. corpus fixed-filegroup-…ops), 29/32 obligations, correspondence agrees
